@@ -242,6 +242,7 @@ def C09(rep, prog, tier):
         if cls:
             _run(rep, cinf.answer, ex, cls)
             _run(rep, cinf.encoding_relation, ex, cls)
+            _run(rep, cinf.query_names, ex, cls)
         _run(rep, enum.violated, ex)
         _run(rep, enum.block, ex)
         _run(rep, enum.minimal, ex)
@@ -437,6 +438,7 @@ def C14(rep, prog, tier):
             _run(rep, enum.z3mcs, ex, cls)
             _run(rep, enum.budgeted_checks, ex, mcsops.Backend("z3", cls, lex=(key[0] == "lex_inf")))
     _run(rep, wrappers.timeout_flow, ex)
+    _run(rep, wrappers.z3_timeout_type, ex)
     _run(rep, wrappers.rows, ex, which=("single", "worker", "multi"), rules=("TIMEOUT.row", "TIMEOUT.per-query"))
     _run(rep, wrappers.refuse, ex, rules=("TIMEOUT.row", "TIMEOUT.flow", "PREPROC.once"))
     _run(rep, wrappers.refuse_manager, ex, rules=("TIMEOUT.row",))
@@ -516,6 +518,7 @@ def C16(rep, prog, tier):
     _run(rep, preocf.zrank_init, ex)
     _run(rep, preocf.fact_builder_sibling, ex)
     # acceptance of a conditional by the ranking object goes through formula ranks
+    _run(rep, preocf.memo_audit, ex, "RANK.min", kinds=("text",))
     _run(rep, preocf.rank_min, ex)
     _run(rep, preocf.accept_decision, ex)
     _run(rep, part.check_all, ex, only=("inference.consistency_sat.consistency",))
@@ -538,6 +541,7 @@ def C17(rep, prog, tier):
     _run(rep, preocf.crep_init, ex)
     _run(rep, crev.solve, ex)
     _run(rep, crev.front_enumeration, ex)
+    _run(rep, preocf.memo_audit, ex, "RANK.min", kinds=("text",))
     _run(rep, preocf.rank_min, ex)
     _run(rep, preocf.accept_decision, ex)
     _run(rep, cinf.encoding_relation, ex)
